@@ -396,6 +396,8 @@ OpNext(op) ==
     [] op = "DeleteSub" -> \E nm \in SubNames : DeleteSub(nm)
     [] op = "UpdateSub" -> \E c \in SubCfgs, mk \in UpdMasks : UpdateSub(c, mk)
     [] op = "UpdateFilter" -> \E c \in SubCfgs : UpdateSub(c, <<"filt">>)
+    [] op = "UpdateRetry" -> \E c \in SubCfgs : UpdateSub(c, <<"retry">>)
+    [] op = "UpdateTTL" -> \E c \in SubCfgs : UpdateSub(c, <<"ttl">>) \/ UpdateSub(c, <<"mttl">>)
     [] op = "SetDelay" -> \E nm \in SubNames, d \in Delays : SetDelay(nm, d)
     [] op = "Publish" -> \E nm \in TopicNames, b \in Batches : Publish(nm, b)
     [] op = "Pull" -> \E nm \in SubNames, k \in PullMaxes : Pull(nm, k)
